@@ -1,6 +1,6 @@
 SPECIFICATION Spec
 CONSTANTS N = 2
-  Walker = "nametree"
+  Walkers = {"nametree"}
   MaxDepth = 1
   MaxChain = 3
   StackCap = 2
